@@ -140,6 +140,7 @@ func checkC12(c *checkCtx) {
 	c.cov.Rule = "the real lox binary is run on (a) token-level mutations (insert / delete / replace / duplicate / swap over a vocabulary of lox keywords, punctuation, cardinalities, malformed escapes and numerals) of the shipped grammars and of generated valid specifications, (b) byte-level damage incl. invalid UTF-8 and truncation, (c) valid grammars with Go packages that are missing, empty, syntactically wrong, ill-typed, lack Token or the parser struct, have two or a generic parser struct, or odd action signatures; each outcome must be: exit 0 with all three files written, or exit 1 with a diagnostic — never a panic, a hang, another status, or exit 0 with missing output; non-trivial = the mutant differs from every earlier one and is not byte-identical to a valid input"
 	c.assume = []string{"PARTIAL by nature: go/packages, the template engine, go/format and the OS are outside any model; termination of the generator's own loops is proved on the Gallina mirrors (normalize, subtract, flatten, FIRST, closure) in C15/C04; this check explores"}
 	c.coqObligations()
+	checkEscapes(c)
 	nMut := 300
 	if c.thorough() {
 		nMut = 4000
